@@ -17,8 +17,25 @@ THEOREMS = [
     "Ural.Props.C02.host_idempotent",
     "Ural.Props.C02.canonOpt_idempotent",
     "Ural.Props.C02.canonQuery_idempotent",
+    "Ural.Props.C02.comps_path",
+    "Ural.Props.C02.canonPath_idempotent",
+    "Ural.Props.C02.path_second_unquote_noop",
+    "Ural.Props.C02.path_modes_partial",
+    "Ural.Props.C02.canonPath_factors",
+    "Ural.Props.C02.dot_segment_insertion_irrelevant",
+    "Ural.Props.C02.insert_dot_segment",
+    "Ural.Props.C02.insert_escaped_dot_segment",
+    "Ural.Props.C02.insert_empty_segment",
+    "Ural.Props.C02.insert_updir_segment",
+    "Ural.Props.C02.unquote_respects_equiv",
+    "Ural.Props.C02.canonPath_respects_equiv",
+    "Ural.Props.C02.opt_modes_partial",
+    "Ural.Props.C02.query_modes_partial",
+    "Ural.Quote.assemble_expand",
+    "Ural.Quote.safelyUnquote_quote_unquote",
+    "Ural.Normpath.pathClean_cleanStr",
 ]
-TABLE_OBLIGATIONS = []
+TABLE_OBLIGATIONS = ["Ural.Props.C02.tables_modes", "Ural.Normpath.pathClean_ascii"]
 RULE = (
     "A case is a base URL (structured components over the quantifier's token alphabet) plus a "
     "composition of <= 3 spelling transformations from the statement's list (scheme/host case, "
@@ -40,12 +57,18 @@ ASSUMPTIONS = [
     "URLs that the parser rejects are outside the property",
 ]
 UNPROVED = (
-    "idempotence is proved per component for userinfo items, fragment, query (unquoted mode) and host; "
-    "for the path (normpath) and in quoted mode, and for the whole function (re-parse of the printed URL), "
-    "escape-equivalence (%41 vs A, raw space vs %20), dot-segment "
-    "insertion, punycode vs Unicode spelling of a label (beyond the host rule's idempotence) and the mode "
-    "round trips are not theorems: decided on every run by the oracle over every transformation of the "
-    "statement and by the model-vs-implementation comparison of both spellings"
+    "proved per component, for all strings: idempotence in both modes and the four mode round trips for the "
+    "path (path_modes_partial: absPath; pathClean when the first pass is quoted), userinfo items and fragment "
+    "(opt_modes_partial) and the query (query_modes_partial) -- the round trips that start from quoted mode "
+    "under the explicit hypothesis cleanStr, which excludes exactly KF-C02-1's class (witnesses that the "
+    "full statements fail there are in Props/C02.lean); host idempotence; dot-segment insertion "
+    "(canonPath factors through the resolved view); escape-equivalence (unquote_respects_equiv: %41 vs A, raw "
+    "space vs %20, a non-ASCII character vs its escaped UTF-8 bytes). NOT theorems: the whole-function "
+    "statements, which compose these with the re-parse of the printed URL by CPython's urlsplit; that "
+    "'query or fragment present' is the same in both passes is not needed (path idempotence holds for any "
+    "pair of flags); punycode vs Unicode spelling of a label beyond the host rule's idempotence (idna codec "
+    "abstract). These are decided on every run by the oracle over every transformation of the statement and "
+    "by the model-vs-implementation comparison of both spellings"
 )
 OPTS = [(False, False), (True, False), (False, True), (True, True)]
 TN = sorted(urlgen.C02_TRANSFORMS)
@@ -86,7 +109,7 @@ def _mk(p, T, tseed, quoted, sf):
 
 
 CORPUS = [
-    ("/%2541", []), ("/%7F", []), ("/%C2%85", []), ("/%2F", []), ("/a/..", []), ("/%2E%2E/b", []),
+    ("/%2541", []), ("/%7F", []), ("/%C2%85", []), ("/x%E3%80%80", []), ("/x%C2%A0", []), ("/%2F", []), ("/a/..", []), ("/%2E%2E/b", []),
 ]
 
 
@@ -94,7 +117,8 @@ def cases(rng, tier):
     b = urlgen.base_parts()
     # regression corpus: inputs on which canonicalize_url used not to be idempotent
     for segs, q in [(["%2541"], None), (["%7F"], None), (["%C2%85"], None), (["%2F"], None), (["a", ".."], [["q", "1"]]),
-                    (["a", "%2E%2E", "b"], None), (["a b"], None), (["%41"], [["%41", "%42"]])]:
+                    (["a", "%2E%2E", "b"], None), (["a b"], None), (["%41"], [["%41", "%42"]]),
+                    (["a\xa0b"], None), (["x\u3000y"], [["k\u2028", "v\xa0w"]])]:
         for quoted, sf in OPTS:
             for t in TN:
                 yield _mk(urlgen.with_(b, segments=segs, query=q), [t], 1, quoted, sf)
